@@ -15,7 +15,7 @@ from lib import common, forkpool, lianrun
 from lib.monitors import events as evmon
 
 PROP = "C17"
-L, OTHER = "python", "java"
+L, OTHER = "javascript", "java"      # one language name is a proper substring of the other on purpose
 S, STOP, REQ, INT = 1, 2, 4, 8
 RETURNS_FULL = [0, S, S | STOP, STOP, S | REQ, S | INT, None]
 RETURNS_SMALL = [0, S, S | STOP, S | REQ]
